@@ -2,9 +2,8 @@ _EXH = {"quick": sum(16 ** n for n in range(1, 5)), "thorough": sum(16 ** n for 
 
 
 def _job(name, mode, cases, params=None):
-    p = dict(params or {})
     return {"name": name, "harness": "c13_ident", "srcs": ["harness/c13_ident.c"], "flavour": "asan",
-            "mode": mode, "cases": cases, "params": p, "budget": 20}
+            "mode": mode, "cases": cases, "params": dict(params or {}), "budget": 20}
 
 
 SPEC = {
@@ -12,38 +11,51 @@ SPEC = {
     "level": "exploration",
     "level_text": "Reception histories on VPS, Teletext 8/30 format 1 and 2, WSS 625 and (separately) XDS network name / call "
                   "letters - repeats, single deviating words, genuine station / programme / format changes, in random interleavings; "
-                  "CNIs of stations from network-table.h, unknown and zero CNIs - are built by independent encoders and decoded by the "
-                  "real service decoder with regular time stamps. Every NETWORK, NETWORK_ID, PROG_ID, LOCAL_TIME and ASPECT event is "
-                  "logged with the reception that raised it and checked against five temporal rules taken from the statement "
-                  "(R1 values as transmitted, R2 announced only after a repeat / WSS 3 repeats + parity, R3 not again while the value "
-                  "keeps arriving, R4 single deviations raise no NETWORK event and keep a probe page cached, R5 a change between known "
-                  "stations raises exactly one NETWORK event and drops the probe page). All histories of <=4 (quick) / <=6 (thorough) "
-                  "receptions over a 4-value alphabet per carrier are enumerated. Held on the executions produced, not a proof.",
+                  "CNIs of stations from network-table.h, CNIs missing from the table and zero CNIs - are built by independent "
+                  "encoders and decoded by the real service decoder with regular time stamps. Every NETWORK, NETWORK_ID, PROG_ID, "
+                  "LOCAL_TIME and ASPECT event is logged with the reception that raised it and checked against five temporal rules "
+                  "taken from the statement (R1 values as transmitted, R2 announced only after a repeat / WSS 3 repeats + parity, "
+                  "R3 the same announcement not made again while the same values keep arriving, R4 single deviations raise no NETWORK "
+                  "event and keep a probe page cached, R5 a change between known stations raises exactly one NETWORK event and drops "
+                  "the probe page). Where the carriers name different stations (one CNI in the table, another not) the statement does "
+                  "not say which station is 'the identified' one: there only R1-R3 and, against a twin history without the single "
+                  "deviations, R4 are judged. All histories of <=4 (quick) / <=6 (thorough) receptions over a 4-value alphabet per "
+                  "carrier are enumerated. Held on the executions produced, not a proof.",
     "level_note": "Trusted: the encoders in harness/c13_tx.h (written from ETS 300 231, EN 300 706 9.8, EN 300 294, EIA-608; "
                   "self-tested on hand vectors and, in selftest only, against the library's decoders), the rule monitor in "
                   "harness/c13_ident.c, the station table as data, gcc ASan/UBSan. R2 is the weak reading (the value was received "
                   "before: CNI/XDS name in one of the two preceding receptions of the carrier, VPS PID anywhere earlier); the "
-                  "Hamming-protected 8/30-2 PID and the local time are only checked for R1.",
+                  "Hamming-protected 8/30-2 PID and the local time are only checked for R1. Three recorded deviations of the "
+                  "library (Q-shared-repeat-counter, Q-unknown-cni-revokes-identification, Q-stale-cni-of-silent-carrier) are "
+                  "reported under their own keys, and only when the library's NETWORK/NETWORK_ID log, cache observations and twin "
+                  "outcome of the history equal those of a reference model with exactly these deviations and the violation vanishes "
+                  "from the model when the deviation is switched off (DESIGN.md 2.5); every other violation keeps its plain key.",
     "technique": "runtime monitoring: temporal rule monitor over the event log of the real decoder driven by independent "
-                 "VPS/8-30/WSS/XDS encoders; cache observed with a probe page; ASan/UBSan",
+                 "VPS/8-30/WSS/XDS encoders; cache observed with a probe page; twin histories; quirk-parameterised reference "
+                 "model for attribution of recorded deviations only; ASan/UBSan",
     "rule": "hist/xds: one case = 1-4 phases (station settles, probe page, 8-60 receptions with single deviations and programme/"
-            "format changes, optional station change); exh: case index = history over 16 symbols (4 carriers x 4 values). Signature "
-            "= (event type, announcing carrier, same/other pattern of the 4 preceding receptions of that carrier, carriers received "
-            "in between, domain) plus (rule R4/R5, domain, deviations, carriers); trivial = no event was raised",
+            "format changes, optional station change) in one of four carrier domains (all carriers name the station / none is in "
+            "the table / some send no CNI / they disagree); exh: case index = history over 16 symbols (4 carriers x 4 values). "
+            "Signature = (event type, announcing carrier, same/other pattern of the 4 preceding receptions of that carrier, "
+            "carriers received in between, domain) plus (rule R4/R5, domain, deviations, carriers); trivial = no event was raised",
     "assumptions": [
         "timestamps advance by 1/25 s (1/29.97 s for XDS) so that the time based channel switch detector stays idle",
         "a blank NETWORK / NETWORK_ID event (nuid 0, no CNI, no name) is a documented revocation and carries no value",
+        "a CNI of zero means that the carrier transmits no identifier (vbi_network: 'zero if unknown or not applicable')",
+        "while carriers name different stations the statement does not determine the identified station: NETWORK events and "
+        "station changes of such histories are not judged, only what their single deviations cause (twin history)",
         "XDS is exercised on its own (525 line systems), the four 625 line carriers together",
         "CNI 0xDC3 / 0xDC1 / 0xDC2 (ARD/ZDF special case) are left to C12",
     ],
     "jobs": [
-        _job("hist", "hist", {"quick": 32000, "thorough": 3200000}),
-        _job("xds", "xds", {"quick": 16000, "thorough": 1000000}),
+        _job("hist", "hist", {"quick": 240000, "thorough": 5000000}),
+        _job("xds", "xds", {"quick": 100000, "thorough": 2000000}),
         _job("exh", "exh", _EXH, {"p0": {"quick": 4, "thorough": 6}}),
     ],
-    "min_distinct": 300,
-    "min_counters": {"receptions": 1000000, "ev_network": 10000, "ev_network_id": 50000, "ev_prog_id_vps": 10000,
-                     "ev_prog_id_8302": 100000, "ev_local_time": 100000, "ev_aspect": 10000, "single_deviations": 50000,
-                     "station_changes_known_to_known": 5000, "station_changes_xds": 5000, "probe_pages": 50000,
-                     "hamming_single_bit_errors": 10000},
+    "min_distinct": 600,
+    "min_counters": {"receptions": 10000000, "ev_network": 200000, "ev_network_id": 1000000, "ev_prog_id_vps": 100000,
+                     "ev_prog_id_8302": 2000000, "ev_local_time": 2000000, "ev_aspect": 100000, "single_deviations": 500000,
+                     "steady_windows": 200000, "steady_windows_judged_against_twin": 20000, "twin_histories": 10000,
+                     "station_changes_known_to_known": 40000, "station_changes_xds": 30000, "probe_pages": 400000,
+                     "hamming_single_bit_errors": 300000},
 }
